@@ -219,6 +219,11 @@ def run_place(case):
         if ev is None and "even number of cells" in str(e):
             return dict(ok=True, failures=[], nontrivial=1, evals=1, outcome="odd-count-raises", detail={"error": str(e)[:120]})
         raise
+    except StopIteration:
+        # array allocation cannot build a 1x1x1 domain at all (with or without symmetry): outside this property
+        if ev is not None and all(r[1] - r[0] == 1 for r in ev[0]):
+            return dict(ok=True, failures=[], nontrivial=0, evals=1, outcome="reduced-domain-1x1x1-not-allocatable", detail={})
+        raise
     if ev is None:
         return dict(ok=False, failures=[dict(sig="odd-cell-count-on-symmetric-axis-accepted", detail=dict(shape=shape, sym=sym, grid=case["grid"]))], nontrivial=1, evals=1, outcome="odd-count-accepted")
     red, unred = ev
